@@ -127,7 +127,7 @@ class FlatSet : private Compare {
   template <class InputIt>
   FlatSet(InputIt first, InputIt last, const Compare &comp = Compare(), const Alloc &alloc = Alloc())
       : Compare(comp), _sortedVector(first, last, alloc) {
-    std::sort(_sortedVector.begin(), _sortedVector.end(), comp);
+    std::stable_sort(_sortedVector.begin(), _sortedVector.end(), comp);
     eraseDuplicates();
   }
 
@@ -151,13 +151,13 @@ class FlatSet : private Compare {
   /// Non standard constructor of a FlatSet from a Vector, stealing its dynamic memory.
   explicit FlatSet(vector_type &&v, const Compare &comp = Compare(), const Alloc &alloc = Alloc())
       : Compare(comp), _sortedVector(std::move(v), alloc) {
-    std::sort(_sortedVector.begin(), _sortedVector.end(), comp);
+    std::stable_sort(_sortedVector.begin(), _sortedVector.end(), comp);
     eraseDuplicates();
   }
 
   FlatSet &operator=(vector_type &&v) {
     _sortedVector = std::move(v);
-    std::sort(_sortedVector.begin(), _sortedVector.end(), compRef());
+    std::stable_sort(_sortedVector.begin(), _sortedVector.end(), compRef());
     eraseDuplicates();
     return *this;
   }
@@ -215,8 +215,9 @@ class FlatSet : private Compare {
   template <class InputIt>
   void insert(InputIt first, InputIt last) {
     miterator insertIt = _sortedVector.insert(_sortedVector.end(), first, last);
-    // sort appended elements only (beginning is already sorted)
-    std::sort(insertIt, mend(), compRef());
+    // sort appended elements only (beginning is already sorted).
+    // The sort is stable so that the first of several equivalent elements is kept, like std::set does
+    std::stable_sort(insertIt, mend(), compRef());
     std::inplace_merge(mbegin(), insertIt, mend(), compRef());
     eraseDuplicates();
   }
